@@ -396,6 +396,18 @@ func runEdgeTemplates(res *Result) {
 		`{% for _, v := range mslices %}{% for _, w := range v %}{%= w %}{% endfor %}{% endfor %}`, `{% for i, s := range strs sep , %}{%= i %}:{%= s %}{% endfor %}`, `{% for k, v := range mmaps %}{%= v.q %}{%= v.s %}{% endfor %}`,
 		`{% ctx x = mslices %}{% ctx x = mmaps %}{% ctx x = mslices.a %}{% ctx x = mslices.b %}{%= x %}`, `{% if mslices == mslices %}a{% endif %}{% if mmaps.p == mmaps.r %}b{% endif %}`,
 	}
+	// rarely written forms: helpers with empty parentheses in every place a helper may stand, chains of
+	// modifiers whose argument counts differ from the number of modifiers (prints and ctx assignments,
+	// every spelling of the tag), ternary prints over helpers
+	edges = append(edges,
+		`{%= len() ? "yes" : "no" %}`, `{%h= cap() ? user.Name : "N/D" %}`, `{%= lenEq0() ? user.Id : user.Name %}`, `{%= nosuch() ? user.Id : user.Name %}`, `{%= len(user.Name) ? user.Id : user.Name %}`,
+		`{% if len() > 0 %}x{% endif %}`, `{% if lenEq0() %}x{% else %}y{% endif %}`, `{% for i := 0; i < 2; i++ %}{% break if lenEq0() %}{% continue if len() == 0 %}{%= i %}{% endfor %}`,
+		`{% switch %}{% case lenEq0() %}a{% case len() %}b{% default %}c{% endswitch %}`, `{% if v, ok := vok(); ok %}a{% else %}b{% endif %}`,
+		`{% ctx price = user.Cost|default(5)|round %}[{%= price %}]`, `{% context p = user.Cost|default(5)|math::add(0.4)|floor %}[{%= p %}]`, `{% ctx price = nosuch|default(7)|math::mul(2)|round as static %}[{%= price %}]`,
+		`{% ctx a = user.Name|vup|default("x", "y", "z") %}[{%= a %}]`, `{% ctx a, ok = user.Name|default("x")|vup|vup|default(1,2) %}[{%= a %}{%= ok %}]`, `{% ctx b = user.Cost|round|ceil|floor|default(1, 2, 3) %}[{%= b %}]`,
+		`{%= user.Cost|round|default(1, 2, 3) %}`, `{%= user.Cost|default(1, 2, 3)|round|ceil %}`, `{%j= user.Name|default("a")|vup|ifThenElse("a", "b", "c")|default() %}`, `{%= user.Name|ifThen()|ifThenElse("x")|default %}`,
+		`{% ctx c = 'single quoted' %}[{%= c %}]{% ctx d = "double" %}[{%= d %}]{% ctx e = 15 %}[{%= e %}]`, `{% cntr n = 10 %}{% cntr n-3 %}{% counter n+2 %}{% cntr n-- %}[{%= n %}]`,
+	)
 	g := &Gen{r: NewRNG(11), p: profiles["ALL"], flits: map[string]float64{}, tags: map[string]bool{}}
 	g.genData()
 	g.data.User.Present, g.data.User.HasFinance = true, true
